@@ -8,16 +8,21 @@ import (
 	"github.com/bluenviron/mediamtx/internal/protocols/moq/subgroup"
 )
 
+// VerifC33Held is one entry of the pending map.
+type VerifC33Held struct {
+	ID uint64
+	SG *subgroup.SubGroup
+}
+
 // VerifC33State returns a read-only snapshot of every mutable field of the Reorderer
-// (the pending map is copied). It takes the mutex like Push does.
-func VerifC33State(r *Reorderer) (initialized bool, cur uint64, pendingBytes int, pending map[uint64]*subgroup.SubGroup) {
+// (the entries of the pending map are appended to buf, in map order). It takes the mutex like Push does.
+func VerifC33State(r *Reorderer, buf []VerifC33Held) (initialized bool, cur uint64, pendingBytes int, pending []VerifC33Held) {
 	r.mu.Lock()
 	defer r.mu.Unlock()
-	pending = make(map[uint64]*subgroup.SubGroup, len(r.pending))
 	for k, v := range r.pending {
-		pending[k] = v
+		buf = append(buf, VerifC33Held{k, v})
 	}
-	return r.initialized, r.curGroupID, r.pendingBytes, pending
+	return r.initialized, r.curGroupID, r.pendingBytes, buf
 }
 
 // VerifC33Fields returns the field names of Reorderer, so that the harness notices
